@@ -46,10 +46,19 @@ def strat_calib(draw, tier):
     name, interval = CALIB[fam] if which == "default" else OTHER[fam][int(which[5:])]
     lo, hi = interval
     true = float(f"{lo + draw(st.floats(0.05, 0.95)) * (min(hi, lo + 10 * (spec['params'][name] + 0.1)) - lo):.6g}")
+    if fam in ("hem", "merton") and draw(st.integers(0, 7)) == 0:
+        # a quiet market a few days before expiry: volatility of about one percent, rare jumps (total standard deviation of
+        # the target below 1e-3)
+        spec["params"]["intensity"] = draw(_f(0.01, 0.05))
+        return {"model": spec, "param": CALIB[fam][0], "interval": list(CALIB[fam][1]), "true": true,
+                "T": draw(st.sampled_from([1 / 365, 2 / 365, 3 / 365])), "product": "call", "moneyness": 1.0,
+                "bs_sigma": draw(_f(0.008, 0.02)), "mode": "default-atm", "recalibrate": None, "spot_move": None,
+                "quiet": True}
     return {"model": spec, "param": name, "interval": [lo, hi], "true": true, "T": draw(_f(0.1, 3.0)),
             "product": draw(st.sampled_from(["call", "put", "forward"])), "moneyness": draw(_f(0.8, 1.25)),
             "bs_sigma": draw(_f(0.05, 0.6)), "mode": draw(st.sampled_from(["generic", "default-atm"])),
-            "recalibrate": draw(st.sampled_from([None, 0.0, 3e-6, -5e-6, 1e-3, 0.2]))}
+            "recalibrate": draw(st.sampled_from([None, 0.0, 3e-6, -5e-6, 1e-3, 0.2])),
+            "spot_move": draw(st.sampled_from([None, None, 0.8, 0.95, 1.2]))}
 
 
 def _snapshot(model):
@@ -89,10 +98,26 @@ def _differs_from_direct(fam, got, direct, u_values=(0.7, -1.3, 2.1 + 0.2j)):
     a, b = float(got.omega), float(direct.omega)
     if not (abs(a - b) <= 1e-12 * (1 + abs(b)) or (a != a and b != b)):
         return "omega-out-of-sync", f"{a} vs {b}"
+    # (and against the model's own exponent: omega = -psi(-i), whatever both objects may have taken from a shared store)
+    c = -complex(got.levy_model.levy_exponent(-1j)).real
+    if not (abs(a - c) <= 1e-10 * (1 + abs(c)) or (a != a and c != c)):
+        return "omega-out-of-sync", f"omega {a} vs -psi(-i) = {c}"
     a, b = got.process_drift(), direct.process_drift()
     if not np.allclose(a, b, rtol=1e-12, atol=1e-14, equal_nan=True):
         return "process-drift-out-of-sync", f"{a} vs {b}"
     return None
+
+
+def _bs_call(spot, strike, r, d, sigma, T):
+    """Black-Scholes call written out (the calibration target is not read from the library's closed form)"""
+    from scipy.stats import norm
+
+    sd = sigma * math.sqrt(T)
+    fwd = spot * math.exp((r - d) * T)
+    if sd <= 0:
+        return math.exp(-r * T) * max(fwd - strike, 0.0)
+    d1 = (math.log(fwd / strike) + 0.5 * sd * sd) / sd
+    return math.exp(-r * T) * (fwd * norm.cdf(d1) - strike * norm.cdf(d1 - sd))
 
 
 def body_calib(case):
@@ -108,6 +133,11 @@ def body_calib(case):
     fam = spec["family"]
     model = build_model(spec)
     spot = spec["exp"]["spot"]
+    if case.get("spot_move") and case["mode"] == "default-atm":
+        # the (settable) spot is re-assigned after construction and before the calibration: at the money = the live spot
+        spot = float(f"{spot * case['spot_move']:.6g}")
+        model.spot = spot
+        spec = dict(spec, exp=dict(spec["exp"], spot=spot))
     T = case["T"]
     detail = f"case={case}"
     before = _snapshot(model)
@@ -120,8 +150,7 @@ def body_calib(case):
         if cal is not None:
             if type(cal) is not type(model):
                 out.append(Violation(f"C20/default-calibration/{fam}/returns-another-model-type", f"{type(cal)}; {detail}"))
-            bs = build_model({"family": "bs", "params": {"sigma": case["bs_sigma"]}, "exp": spec["exp"]})
-            target = float(CFBlackScholes(bs).call(strike=spot, maturity=T))
+            target = _bs_call(spot, spot, spec["exp"]["r"], spec["exp"]["d"], case["bs_sigma"], T)
             got = float(np.asarray(COSPricer(cal).call(np.array([spot]), T)).ravel()[0])
             if abs(got - target) > 1e-8 * spot:
                 out.append(Violation(f"C20/default-calibration/{fam}/atm-call-differs-from-black-scholes",
@@ -146,8 +175,7 @@ def body_calib(case):
                 except ValueError:
                     cal2 = None
                 if cal2 is not None:
-                    bs2 = build_model({"family": "bs", "params": {"sigma": sig2}, "exp": spec["exp"]})
-                    target2 = float(CFBlackScholes(bs2).call(strike=spot, maturity=T))
+                    target2 = _bs_call(spot, spot, spec["exp"]["r"], spec["exp"]["d"], sig2, T)
                     got2 = float(np.asarray(COSPricer(cal2).call(np.array([spot]), T)).ravel()[0])
                     if abs(got2 - target2) > 1e-8 * spot:
                         out.append(Violation(f"C20/default-calibration/{fam}/recalibrated/atm-call-differs-from-black-scholes",
@@ -203,7 +231,8 @@ def body_calib(case):
 
 def classify_calib(case):
     moved = abs(case["true"] - case["model"]["params"][case["param"]]) > 0.01 * abs(case["model"]["params"][case["param"]] + 1e-12)
-    return [branch_of(case["model"]), case["mode"], case["param"] if case["mode"] == "generic" else "default-parameter",
+    return [branch_of(case["model"]), case["mode"] + ("/quiet-short-dated" if case.get("quiet") else ""),
+            case["param"] if case["mode"] == "generic" else "default-parameter",
             case["product"] if case["mode"] == "generic" else "atm-call"], (case["mode"] == "default-atm" or moved)
 
 
@@ -250,6 +279,11 @@ def body_params(case):
     params = build_params(spec)
     final = dict(spec["params"])
     detail = f"case={case}"
+    # (a model is built from the parameters before they are updated: the history of a calibration or of a bump)
+    try:
+        build_model(dict(spec, route="direct"))
+    except (ValueError, ZeroDivisionError, OverflowError):
+        pass
     for op in case["ops"]:
         if op[0] == "init":
             params.initialisation()
@@ -310,6 +344,9 @@ def body_params(case):
         a, b = float(getattr(rebuilt, attr)), float(getattr(direct, attr))
         if not (abs(a - b) <= 1e-12 * (1 + abs(b)) or (a != a and b != b)):
             out.append(Violation(f"C20/parameters/{fam}/{attr}-out-of-sync", f"{a} vs {b}; {detail}"))
+        c = -complex(rebuilt.levy_model.levy_exponent(-1j)).real
+        if not (abs(a - c) <= 1e-10 * (1 + abs(c)) or (a != a and c != c)):
+            out.append(Violation(f"C20/parameters/{fam}/{attr}-out-of-sync", f"omega {a} vs -psi(-i) = {c} of the rebuilt model; {detail}"))
     a, b = rebuilt.process_drift(), direct.process_drift()
     if not np.allclose(a, b, rtol=1e-12, atol=1e-14, equal_nan=True):
         out.append(Violation(f"C20/parameters/{fam}/process-drift-out-of-sync", f"{a} vs {b}; {detail}"))
